@@ -210,8 +210,13 @@ CLAIMED = {
              "errno that becomes sticky (C06_btls_*_discovers), and process_ssl_event maps protocol errors to EPROTO, orderly or early "
              "closes to closed and any other errno to itself (C06_btls_classification). "
              "Tie: exhaustive fault enumeration (every errno x every first observer x every start state) on the real "
-             "xcm_tp_btcp.c, xcm_tp_tcp.c/xcm_tp_tls.c and xcm_tp_btls.c (every OpenSSL event) vs the models.",
-        note="Found and fixed here: F-06a (btls_send reported EAGAIN for a handshake failure it discovered itself). Not inside this "
+             "xcm_tp_btcp.c, xcm_tp_tcp.c/xcm_tp_tls.c and xcm_tp_btls.c (every OpenSSL event) vs the models; sys_fault on live sockets of all seven "
+             "transports: an errno injected at every send()/recv() index below XCM and below OpenSSL (the descriptor then answers as "
+             "Linux does once the error was consumed, so only XCM can remember it), a raw TCP peer cut at every byte offset of a "
+             "wire stream with FIN or RST, a forked XCM peer killed during the handshake / mid-message or closing gracefully after "
+             "n messages - oracle: discoverer's errno, stickiness, only complete messages, everything sent before a graceful close.",
+        note="Found and fixed here: F-06a (btls_send reported EAGAIN for a handshake failure it discovered itself), F-06b (a TLS client that "
+             "sends and closes without reading lost its messages: unread TLS 1.3 session tickets turned the close into a reset). Not inside this "
              "check: which errno tconnect.c selects for a failed multi-address connect (C13). Axioms: propext, Classical.choice, "
              "Quot.sound.",
         technique="Lean 4 proofs (absorbing states, case analysis) + exhaustive fault enumeration correspondence",
